@@ -14,7 +14,7 @@ Judge(r) ==
   LET v == Eval(r.tree, Env, PC0) IN
   IF v.k = "undef" THEN <<>>                                      \* outside the property's domain
   ELSE IF r.dir = "text"
-    THEN IF v.k # "str" \/ \E i \in 1..Len(v.s) : v.s[i] \notin TextDomain THEN <<>>
+    THEN IF v.k # "str" \/ \E i \in 1..Len(v.s) : v.s[i] \notin DomainOf(r.enc) THEN <<>>
          ELSE IF r.ok /\ r.bytes = TextBytes(r.enc, v.s) THEN <<>>
          ELSE <<V(r.id, "violation", "", "text bytes differ from TextBytes(enc, value)")>>
   ELSE IF v.k # "num" THEN <<>>                                   \* data directive on a string: unspecified
